@@ -430,17 +430,28 @@ def has_unsafe_operation(ast: AST) -> bool:
     if collect_ast(ast, "Interval"):
         return True
 
-    if any(map(lambda x: x.operator_type == UnaryOperator.Absolute, collect_ast(ast, "UnaryOperation"))):
-        return True
-
     invalid = (
         BinaryOperator.XOr,
+        BinaryOperator.Or,
+        BinaryOperator.And,
         BinaryOperator.Power,
         BinaryOperator.Modulo,
         BinaryOperator.Division,
         BinaryOperator.Multiplication,
     )
-    return any(map(lambda x: x.operator_type in invalid, collect_ast(ast, "BinaryOperation")))
+    # collect_ast does not descend into the nodes it returns, nested operations are visited explicitly
+    todo = [ast]
+    while todo:
+        node = todo.pop()
+        for uop in collect_ast(node, "UnaryOperation"):
+            if uop.operator_type in (UnaryOperator.Absolute, UnaryOperator.Negation):
+                return True
+            todo.append(uop.argument)
+        for bop in collect_ast(node, "BinaryOperation"):
+            if bop.operator_type in invalid:
+                return True
+            todo.extend([bop.left, bop.right])
+    return False
 
 
 def _collect_binding_information_simple_literal(
@@ -460,6 +471,7 @@ def _collect_binding_information_simple_literal(
                     len(variables) == 1
                     and not has_unsafe_operation(arg)
                     or len(collect_ast(arg, "BinaryOperation")) + len(collect_ast(arg, "UnaryOperation")) == 0
+                    and not collect_ast(arg, "Interval")
                 ):
                     bound_variables.update(variables)
                 else:
